@@ -1,17 +1,17 @@
 SPECIFICATION Spec
 CONSTANTS
   Classes <- Classes4
-  Outs <- OutsC16
-  Durs = {0}
+  Outs <- OutsC10
+  Durs = {1}
   Rets <- RetsOne
   Advs <- AdvsExact
-  Decs <- DecsAll
+  Decs <- DecsSleep
   BFaults <- BFaultsNone
   Ras <- RasNone
-  Modes = {"call", "exec"}
-  RunGaps <- GapsNone
-  NRuns = 1
-  Configs <- ConfigsC16
+  Modes = {"exec"}
+  RunGaps <- GapsC10
+  NRuns = 3
+  Configs <- ConfigsC10x
   RecordHist = TRUE
 INVARIANT NoViolation
 INVARIANT ExportBehaviours
